@@ -74,7 +74,7 @@ void harness(void)
   for (r = 0; r < CF_R; r++)
   {
     ASSUME(in_rkind[r] <= 4);
-    ASSUME(in_rkind[r] != 1 || (in_rcpu[r] < 0x80 && in_rcpu[r] != 0));
+    ASSUME(in_rcpu[r] != 0 && (in_rkind[r] != 1 || in_rcpu[r] < 0x80));   /* no CPU family has id 0 */
     ASSUME(in_rseg[r] < SegCount);
     ASSUME(in_rgran[r] == 1 || in_rgran[r] == 2 || in_rgran[r] == 4);
     ASSUME(in_rlen[r] <= CF_L);
